@@ -1047,6 +1047,14 @@ def stream_method(I, st, name, args, kwargs):
     n = buf.length()
     if name == "read":
         size = args[0] if args else kwargs.get("size", None)
+        if isinstance(size, SInt):
+            v = ctx.value_if_determined(size.t)
+            if v is not None:
+                size = v
+        if isinstance(st.pos, SInt):
+            v = ctx.value_if_determined(st.pos.t)
+            if v is not None:
+                st.pos = v
         pos = st.pos
         if size is None or (isinstance(size, int) and size < 0):
             hi = n
